@@ -4,8 +4,9 @@ from ..core import Script, hx
 
 ID = "C17"
 SUITES = ["beacon"]
-LEAN_MODULES = ["VpnCloud.Proofs.C17"]
+LEAN_MODULES = ["VpnCloud.Proofs.C17", "VpnCloud.Proofs.C17More"]
 THEOREMS = ["VpnCloud.Proofs.C17." + n for n in ("mask_length", "mask_involutive", "mask_wf", "encrypt_decrypt", "age_window", "peerlist_roundtrip_partial", "too_old_ignored", "findSub_sound", "findSub_none", "decode_clean")]
+THEOREMS = THEOREMS + ["VpnCloud.Proofs.C17More." + n for n in ('decode_never_panics', 'embedded_found', 'embedded_found_unbordered', 'several_beacons', 'several_beacons_unbordered', 'extracted_needs_markers', 'foreign_seed_check', 'other_password_ignored', 'age_symmetric', 'too_old', 'too_new', 'too_old_wrapped', 'wrap_instances', 'beacon_age', 'no_ttl_accepts_all', 'sanitize_interleave')]
 BATCH = 100
 SEARCH_BUDGET_S = 300
 RULE = ("suite beacon: brt = encode at one hour, embed in host text (random alphanumerics and punctuation before / behind, separators interleaved in 4 modes), "
